@@ -1,3 +1,4 @@
+import Pds.Proofs.KernelTie.Ctor
 import Pds.Proofs.KernelTie.Quotient
 import Pds.Proofs.KernelTie.QfOps
 import Pds.Proofs.KernelTie.QfUnion
@@ -76,5 +77,10 @@ theorem qf_union_translated {N : Nat} (qb rb : Nat) (t o : Quotient.St N) :
 theorem qf_union_mismatch_translated (qb rb qb' rb' : Nat) (h : qb ≠ qb' ∨ rb ≠ rb') (a b c : List Bool) (d : List Nat) (n : Nat)
     (a' b' c' : List Bool) (d' : List Nat) :
     qf_union qb rb a b c d n qb' rb' a' b' c' d' = Flow.panic := qf_union_mismatch qb rb qb' rb' h a b c d n a' b' c' d'
+
+/-- `QuotientFilter::with_params_and_hash` as translated (three assertions, `len = 1 << bits_quotient`) accepts exactly
+the pairs of `paramsOk`, the hypothesis of the public-API theorems of C13, with `2 ^ q` slots -/
+theorem with_params_translated (q r : Nat) :
+    qf_with_params q r = if Quotient.paramsOk q r then Flow.ret (2 ^ q) else Flow.panic := qf_with_params_eq q r
 
 end Pds.Tie.C13
